@@ -308,7 +308,13 @@ func (x *Exec) nextOp(st *State, fr *Frame, in *ssa.Next) []*State {
 	q := fmt.Sprintf("k!%d", x.sym.counter)
 	dom := x.mapDom(done, mt, it.Map)
 	done.assume(Term{fmt.Sprintf("(forall ((%s %s)) (=> (select %s %s) (select %s %s)))", q, ks, dom.S, q, it.Visited.S, q), SBool})
-	dfr.regs[in] = TupleV{[]Value{Scalar{tFalse, tup.At(0).Type()}, x.zeroValue(tup.At(1).Type()), x.zeroValue(tup.At(2).Type())}}
+	zeroOrDummy := func(t types.Type) Value {
+		if b, ok := t.(*types.Basic); ok && b.Kind() == types.Invalid {
+			return Scalar{tFalse, t}
+		}
+		return x.zeroValue(t)
+	}
+	dfr.regs[in] = TupleV{[]Value{Scalar{tFalse, tup.At(0).Type()}, zeroOrDummy(tup.At(1).Type()), zeroOrDummy(tup.At(2).Type())}}
 	done.trail = append(done.trail, fmt.Sprintf("%s.range-done", relName(fr.fn)))
 	// next key
 	kv := x.freshValue(st, "rangekey", mt.Key())
